@@ -395,6 +395,27 @@ def native_lock_and_marker(ctx):
     return r2 if r2[0] else (False, spath, 'held natively')
 
 
+KANI_HARNESSES = [
+    ('parse_file_header_exact', 'FormatVersion::parse_file_header over every byte string of length 0..=6: Some(v) iff "FJL" followed by 1..=3, and v is that byte', 900),
+    ('header_roundtrip', 'write_file_header then parse_file_header is the identity for every version', 900),
+]
+
+
+def check_kani(ctx):
+    """engine K (thorough tier): the compiled marker codec under CBMC"""
+    for h, desc, to in KANI_HARNESSES:
+        ob = ctx.ob(f'kani/{h}', 'Kani/CBMC over the compiled code: ' + desc, ['version::verif_kani::' + h])
+        ob.reach = 1
+        r = ctx.run_kani(h, timeout_s=to)
+        if r == 'success':
+            ob.status = 'discharged'; ob.sample = dict(ctx.kani[-1])
+        elif r == 'failed':
+            ctx.candidate(ob, 'check_version/accepts-wrong-version', f'Kani harness {h} fails: {ctx.kani[-1].get("failed_checks")}',
+                          confirm=lambda: native_marker(ctx, [b'FJL\x01', b'FJL\x02', b'FJL\x04', b'FJL\x00', b'', b'FJL', b'XJL\x03']))
+        else:
+            ob.status = 'undecided'; ob.detail = f'Kani inconclusive: {ctx.kani[-1]}'
+
+
 def run(ctx):
     ctx.assumptions += [
         'F2: File::try_lock excludes other handles/processes (OS behaviour, assumed); joined/closed worker threads have stopped',
@@ -408,6 +429,8 @@ def run(ctx):
     check_lock_shared(ctx)
     check_lock_acquire(ctx)
     check_drop(ctx)
+    if ctx.tier == 'thorough':
+        check_kani(ctx)
     for o in ctx.obligations:
         ctx.samples.append(o.as_dict())
     return ctx.finish()
